@@ -864,6 +864,58 @@ fn long_checkpoint_history(n_after: usize) -> Vec<Viol> {
     out
 }
 
+// ------------------------------------------------------------------ the job's error path (artifact store unwritable)
+/// 2 messages, `.rip/artifacts` replaced by a regular file: the summary cannot be written, the job must fail and
+/// still be bracketed (job_spawned + job_ended(failed) of the same job, nothing else); after the obstruction is
+/// removed the same cut is planned again and completes.  Not modelled (I/O failure): oracle only.
+fn io_failure_scenario(schedule: bool) -> Vec<Viol> {
+    let mut w = World::new("c09io");
+    let mut v = vec![];
+    for i in 0..2 {
+        w.store.append_message(&w.tid, "actor0".into(), "test".into(), format!("m{i}")).unwrap();
+    }
+    w.refresh();
+    let rip = w.ws.join(".rip");
+    let _ = std::fs::remove_dir_all(rip.join("artifacts"));
+    std::fs::create_dir_all(&rip).unwrap();
+    std::fs::write(rip.join("artifacts"), b"not a directory").unwrap();
+    let before = w.events.len();
+    let (status, err, job) = if schedule {
+        match w.store.compaction_auto_schedule_v1(&w.tid, CompactionAutoScheduleV1Request { stride_messages: Some(2), max_new_checkpoints: Some(1), block_on_inflight: Some(true), execute: Some(true), dry_run: None, actor_id: "actor0".into(), origin: "test".into() }) {
+            Ok(r) => (r.decision, r.error, r.job_id),
+            Err(e) => (format!("Err({e})"), None, None),
+        }
+    } else {
+        match w.store.compaction_auto_v1(&w.tid, CompactionAutoV1Request { stride_messages: Some(2), max_new_checkpoints: Some(1), dry_run: None, actor_id: "actor0".into(), origin: "test".into() }) {
+            Ok(r) => (r.status, r.error, r.job_id),
+            Err(e) => (format!("Err({e})"), None, None),
+        }
+    };
+    w.refresh();
+    let new: Vec<&Event> = w.events[before..].iter().filter(|e| !matches!(e.kind, EventKind::ContinuityCompactionAutoScheduleDecided { .. })).collect();
+    if status != "failed" || err.is_none() {
+        v.push(Viol { what: format!("summary store unwritable but the call answered status={status} error={err:?}"), class: "io_failure_not_reported".into() });
+    }
+    let shape_ok = new.len() == 2
+        && matches!(&new[0].kind, EventKind::ContinuityJobSpawned { job_id, .. } if Some(job_id) == job.as_ref())
+        && matches!(&new[1].kind, EventKind::ContinuityJobEnded { job_id, status, .. } if Some(job_id) == job.as_ref() && status == "failed");
+    if !shape_ok {
+        v.push(Viol { what: format!("failed job is not bracketed: appended {:?}", new.iter().map(|e| format!("{:?}", e.kind).chars().take(40).collect::<String>()).collect::<Vec<_>>()), class: "job_bracket".into() });
+    }
+    oracle_history(&w, &[], &mut v);
+    // repair and retry
+    std::fs::remove_file(rip.join("artifacts")).unwrap();
+    let before2 = w.events.clone();
+    let r = w.store.compaction_auto_v1(&w.tid, CompactionAutoV1Request { stride_messages: Some(2), max_new_checkpoints: Some(1), dry_run: None, actor_id: "actor0".into(), origin: "test".into() });
+    w.refresh();
+    match r {
+        Ok(r) if r.status == "completed" => oracle_appended(&w, &before2, &w.events, 2, 1, false, None, &mut v),
+        other => v.push(Viol { what: format!("retry after the failed job did not complete: {:?}", other.map(|r| r.status)), class: "auto_frames_not_planned".into() }),
+    }
+    oracle_history(&w, &[], &mut v);
+    v
+}
+
 // ------------------------------------------------------------------ concurrent schedule / auto calls
 /// One public call made by an actor thread, with resolved parameters (stride != 0, max_new in 1..=32).
 #[derive(Clone, Debug)]
@@ -1378,6 +1430,20 @@ fn main() {
         }
     }
     wc.flush();
+    for schedule in [false, true] {
+        let got = std::panic::catch_unwind(move || io_failure_scenario(schedule));
+        res.evaluations += 1;
+        res.oracle_checks += 4;
+        res.bump("io_failure_scenario");
+        match got {
+            Err(_) => res.oracle_violations.push(OracleViolation { case_id: -3, what: "panic in the unwritable-artifact-store scenario".into(), class: "panic".into(), replay: json!({"io_failure_scenario": schedule}) }),
+            Ok(vs) => {
+                if let Some(v) = vs.into_iter().next() {
+                    res.oracle_violations.push(OracleViolation { case_id: -3, what: v.what, class: v.class, replay: json!({"io_failure_scenario": {"schedule": schedule}, "how": "2 messages; .rip/artifacts replaced by a file; auto / schedule(stride 2)"}) });
+                }
+            }
+        }
+    }
     for n_after in [3usize, 9_999, 10_000, 10_050] {
         let got = std::panic::catch_unwind(move || long_checkpoint_history(n_after));
         res.evaluations += 1;
